@@ -51,6 +51,8 @@ func c07Scenarios(thorough bool) []ConcScenario {
 		big.Plans[i].Script = []string{"bigdata:[" + id + "-client-big]", "data:[" + id + "-client-2]", "recvbytes:34", "drop"}
 	}
 	out = append(out, big)
+	// real tokens checked by the real security callbacks, the identity provider round trip being a scheduling point
+	out = append(out, ConcScenario{Name: "two-ws+ws-real-tokens", Deviation: true, RoundRobin: true, RealCookie: true, Plans: []TunnelPlan{c07Plan("ws", "A", 1, "drop"), c07Plan("ws", "B", 2, "drop")}})
 	prw := ConcScenario{Name: "two-ws+ws-read-return", Deviation: true, PostRead: true, Plans: []TunnelPlan{c07Plan("ws", "A", 1, "drop"), c07Plan("ws", "B", 2, "drop")}}
 	out = append(out, prw)
 	if thorough {
@@ -153,7 +155,7 @@ func c07(env *Env, rep *Report) {
 	prepare := func(sc ConcScenario) []string {
 		var alone []string
 		for _, p := range sc.Plans {
-			r := RunConc(ConcScenario{Name: "alone", Plans: []TunnelPlan{p}, Gw: concGwCfg(sc.Plans)}, nil, false)
+			r := RunConc(ConcScenario{Name: "alone", Plans: []TunnelPlan{p}, Gw: concGwCfg(sc.Plans), RealCookie: sc.RealCookie, Segmented: sc.Segmented, PostRead: sc.PostRead}, nil, false)
 			alone = append(alone, c07Obs(r.Tunnels[0]))
 			r.X.Finish()
 		}
